@@ -222,6 +222,27 @@ CHECKS = {
                 'TTLs: quick {1,2,3,8,9,100,254,255}, thorough 1..255; a case is non-trivial when it has at least 3 events',
         'assumptions': ASSUME_COMMON,
     },
+    'C10': {
+        'level': 'model_checking',
+        'jobs': [
+            T('MC_Core', 'Core_C13.cfg'), T('MC_Req', 'Req_q03.cfg'), T('MC_RepLike', 'Rep_quick.cfg'),
+            T('MC_Surveyor', 'Surveyor_quick.cfg'), T('MC_RawSock', 'Raw_xpair.cfg'), T('MC_RawSock', 'Raw_xpush.cfg'),
+            T('MC_Lifecycle', 'Lifecycle.cfg', workers=2),
+            C('core', 'TestCore', 'TraceCore', n={'quick': 40, 'thorough': 600}, env={'VERIF_MIX': 'close'}),
+            C('req', 'TestReq', 'TraceReq', n={'quick': 40, 'thorough': 600}, env={'VERIF_MIX': 'close'}),
+            C('rep', 'TestRep', 'TraceRep', n={'quick': 30, 'thorough': 400}, env={'VERIF_MIX': 'close'}),
+            C('respondent', 'TestRespondent', 'TraceRespondent', n={'quick': 30, 'thorough': 400}, env={'VERIF_MIX': 'close'}),
+            C('sub', 'TestSub', 'TraceSub', n={'quick': 30, 'thorough': 400}, env={'VERIF_MIX': 'close'}),
+            C('surveyor', 'TestSurveyor', 'TraceSurveyor', n={'quick': 30, 'thorough': 400}, env={'VERIF_MIX': 'close'}),
+            C('closereal', 'TestCloseReal', 'TraceLifecycle', trivial_len=3),
+        ] + [dict(R(p, e), env={'VERIF_RAW_PROTOS': p, 'VERIF_MIX': 'close'}, n={'quick': 15, 'thorough': 300},
+                  tiers=('quick', 'thorough') if q else ('thorough',))
+             for p, e, q in [('xpair', 'xpair', 1), ('xpair1', 'xpair1', 0), ('xreq', 'xreq', 1), ('xpush', 'xpush', 1), ('xpull', 'xpull', 1),
+                             ('xpub', 'xpub', 1), ('xsub', 'xsub', 0), ('xsurveyor', 'xsurveyor', 1), ('xbus', 'xbus', 1), ('xstar', 'xstar', 1),
+                             ('xrep', 'xrep', 1), ('xrespondent', 'xrespondent', 1), ('pair', 'xpair', 0), ('push', 'xpush', 0),
+                             ('bus', 'xbus', 0), ('star', 'xstar', 0), ('pub', 'xpub', 0), ('pull', 'xpull', 0), ('pair1', 'xpair1', 0)]],
+        'assumptions': ASSUME_COMMON + ['real mode: goroutine census by runtime.Stack filtered to mangos frames, 2-3 s real-time bounds'],
+    },
     'C13': {
         'level': 'model_checking',
         'jobs': [
